@@ -2,10 +2,10 @@ INIT Init
 NEXT Next
 VIEW view
 CONSTANTS
-  PNorm <- AlphaWild
-  PLit <- LitCore
+  PNorm <- AlphaQ
+  PLit <- LitQ
   PMacro <- NoChars
-  PLen = 4
+  PLen = 5
   SAlpha <- StrFull
   SLen = 3
   Kind = "match"
